@@ -64,7 +64,17 @@ def run_sharded(ctx, binary, cmd, shards, name):
         return list(ex.map(one, range(len(shards))))
 
 
-def plant_canaries(beh_path, out_path):
+def has_empty_regex(x):
+    if isinstance(x, dict):
+        if x.get("k") == "match" and not x.get("rx", {}).get("lit"):
+            return True
+        return any(has_empty_regex(v) for v in x.values())
+    if isinstance(x, list):
+        return any(has_empty_regex(v) for v in x)
+    return False
+
+
+def plant_canaries(beh_path, sim_path, out_path):
     """two corrupted copies of emitted behaviours: the replayer must reject exactly these"""
     prog = None
     with open(beh_path) as f:
@@ -81,10 +91,26 @@ def plant_canaries(beh_path, out_path):
     c2 = json.loads(json.dumps(prog)); c2["tag"] = "canary-notset"
     s1 = c2["exp"][-1]["S"]["s1"]
     s1["set"] = not s1["set"]
+    # third canary: the expected *final* value of a random program is corrupted - only the whole-program replay
+    # (the program inside a subroutine frame, variables exported to headers) can notice
+    c3 = None
+    with open(sim_path) as f:
+        for line in f:
+            b = json.loads(line)
+            if has_empty_regex(b["stmts"]):
+                continue        # programs with an empty regular expression run into the known finding
+            if b["exp"][-1]["st"] == "ok" and b.get("fin", {}).get("i1", {}).get("t") == "STR":
+                c3 = b
+                break
+    if c3 is None:
+        raise MachineryFault("no random program to derive the whole-program canary from")
+    c3["tag"] = "canary-fin"
+    c3["fin"]["i1"]["cs"] = c3["fin"]["i1"]["cs"] + ["9"]
     with open(out_path, "w") as o:
         o.write(json.dumps(c1) + "\n")
         o.write(json.dumps(c2) + "\n")
-    return 2
+        o.write(json.dumps(c3) + "\n")
+    return 3
 
 
 def plant_acl_canary(beh_path, out_path):
@@ -161,23 +187,29 @@ def run(ctx):
     nsh = min(ctx.workers, 16)
     prog_files = [res["cells"].beh_path, res["shapes"].beh_path] + [res["sim%d" % k].beh_path for k in range(nsim)]
     can = os.path.join(ctx.work, "canaries.jsonl")
-    plant_canaries(res["cells"].beh_path, can)
+    plant_canaries(res["cells"].beh_path, res["sim0"].beh_path, can)
     shards, total = shard_lines(prog_files + [can], nsh, ctx.work, "prog")
     outs = run_sharded(ctx, "vhc07", "replay", shards, "p")
     canaries_seen = 0
     for o in outs:
         for r in ctx.read_results(o):
-            tag = (r.get("class") or {}).get("tag", "")
+            cls = r.get("class") or {}
+            tag = cls.get("tag", "")
             if tag.startswith("canary"):
+                whole = cls.get("kind") == "whole"
+                if tag == "canary-fin" and not whole:
+                    continue            # the step-wise replay of this one is expected to agree
                 canaries_seen += 1
                 if not r.get("mismatch"):
                     raise MachineryFault("canary %s was accepted by the replayer (comparison is vacuous)" % tag)
                 continue
+            if cls.get("skipped"):
+                continue
             if not r.get("validated"):
                 raise MachineryFault("replayer could not bind a program: %s" % json.dumps(r.get("drift"))[:400])
             ctx.add_result(r)
-    if canaries_seen != 2:
-        raise MachineryFault("expected 2 canary results, saw %d" % canaries_seen)
+    if canaries_seen != 4:
+        raise MachineryFault("expected 4 canary rejections (2 step-wise, 2 whole-program), saw %d" % canaries_seen)
 
     # ------------------------------------------------------------------ 3. replay of ACLs
     acl_files = [res[n].beh_path for n in res if n.startswith("acl")]
